@@ -246,6 +246,74 @@ let run_case fam t =
               pre ^ show_password_wl (List.map (fun tk -> (tk.value, tk.ttype)) ts) e (int_of_n consumed) ^ " " ^ d
           | Err e -> Printf.sprintf "%serr %s consumed=%d %s" pre (err_name e) (int_of_n consumed) d
           | Panic p -> Printf.sprintf "%spanic %s consumed=%d %s" pre (panic_name p) (int_of_n consumed) d))
+  | "history" ->
+      let (tbl, _) = next_titles t in
+      let nobj = next_int t in
+      let objs = Array.make nobj (OWL { wrList = None; wrLength = Z0; wrSep = SepChar []; wrCap = CapNone }) in
+      for i = 0 to nobj - 1 do
+        (match next t with
+         | "char" -> objs.(i) <- OChar { coPub = next_recipe t; coCache = None }
+         | "wl" ->
+             let (l, _) = next_words t in
+             let wl = (match run_new_word_list tbl None l with (Done (Some w), _) -> Some w | _ -> None) in
+             let len = next_z t in
+             let sep = next_sep t in
+             let cap = cap_of_string (next_bytes t) in
+             objs.(i) <- OWL { wrList = wl; wrLength = len; wrSep = sep; wrCap = cap }
+         | k -> failwith ("bad object kind " ^ k))
+      done;
+      (* the driver tracks the current public fields only to translate mutreq/setw into Set operations *)
+      let cur = Array.copy objs in
+      let nops = next_int t in
+      let ops = ref [] in
+      for _ = 1 to nops do
+        let opk = next t in
+        let h = next_int t in
+        let hn = nat_of_int h in
+        (match opk with
+         | "setc" -> let r = next_recipe t in cur.(h) <- OChar { coPub = r; coCache = None }; ops := SetChar (hn, r) :: !ops
+         | "mutreq" ->
+             let i = next_int t in let v = next_bytes t in
+             (match cur.(h) with
+              | OChar c ->
+                  let r = c.coPub in
+                  let rs = List.mapi (fun j x -> if j = i then v else x) r.crRequireSets in
+                  let r' = { r with crRequireSets = rs } in
+                  cur.(h) <- OChar { coPub = r'; coCache = None }; ops := SetChar (hn, r') :: !ops
+              | _ -> failwith "mutreq on a wordlist recipe")
+         | "setw" ->
+             let len = next_z t in let sep = next_sep t in let cap = cap_of_string (next_bytes t) in
+             (match cur.(h) with
+              | OWL w -> let w' = { w with wrLength = len; wrSep = sep; wrCap = cap } in
+                         cur.(h) <- OWL w'; ops := SetWL (hn, w') :: !ops
+              | _ -> failwith "setw on a character recipe")
+         | "gen" -> ops := Generate (hn, next_source t) :: !ops
+         | "ent" -> ops := Entropy (hn, next_source t) :: !ops
+         | "alpha" -> ops := Alphabet hn :: !ops
+         | "sp" -> ops := SuccessProb hn :: !ops
+         | k -> failwith ("bad op " ^ k))
+      done;
+      let results = run_history tbl (Array.to_list objs) (List.rev !ops) in
+      let show = function
+        | RNone -> "-"
+        | RChar (o, n, e) ->
+            (match o with
+             | Done cand -> show_password (List.map (fun g -> (g, n_of_int 1)) cand) e (int_of_n n) ^ " snap=ok"
+             | Err er -> Printf.sprintf "err %s consumed=%d snap=ok" (err_name er) (int_of_n n)
+             | Panic p -> Printf.sprintf "panic %s consumed=%d snap=ok" (panic_name p) (int_of_n n))
+        | RWord (o, n) ->
+            (match o with
+             | Done (ts, e) -> show_password_wl (List.map (fun tk -> (tk.value, tk.ttype)) ts) e (int_of_n n) ^ " snap=ok"
+             | Err er -> Printf.sprintf "err %s consumed=%d snap=ok" (err_name er) (int_of_n n)
+             | Panic p -> Printf.sprintf "panic %s consumed=%d snap=ok" (panic_name p) (int_of_n n))
+        | REntropy e -> "ent=" ^ show_entropy e ^ " snap=ok"
+        | RWLEntropy (o, n) ->
+            (match o with
+             | Done e -> Printf.sprintf "ent=%s consumed=%d snap=ok" (show_wl_entropy e) (int_of_n n)
+             | Err er -> "err " ^ err_name er | Panic p -> "panic " ^ panic_name p)
+        | RAlphabet a -> "alphabet=" ^ hex_of_bytes a ^ " snap=ok"
+        | RSuccess (num, den) -> Printf.sprintf "sp=%s/%s snap=ok" (hexz (zar_of_z num)) (hexz (zar_of_z den)) in
+      String.concat " | " (List.map show results) ^ " " ^ no_diag
   | _ -> failwith ("unknown family " ^ fam)
 
 let () =
